@@ -108,7 +108,7 @@ class RaggedHistory(Engine):
                     'by': rng.choice(['handle', 'handle', 'path', 'strpath'])}
         if k == 'truncate_bad':
             return {'op': 'truncate', 'index': rng.choice([0, 1, -1]), 'by': 'handle',
-                    'itype': rng.choice(['float', 'npint64', 'none', 'str'])}
+                    'itype': rng.choice(['float', 'none', 'str'])}
         if k == 'getbad':
             return {'op': 'getbad', 'what': rng.choice(['float', 'str', 'slice', 'none', 'list', 'npfloat'])}
         if k == 'iter':
